@@ -271,3 +271,252 @@ example : Inv {} 0 := inv_init
 example : (prun C06.exReg {} C06.exDoc).1.sizes = [(1, 2), (3, 4)] := by decide +kernel
 
 end EdxmlProps.C19
+
+/-! ### XML transcoder mediator: the same bound for `_clean_after_transcode` -/
+
+namespace EdxmlProps.C19
+open Edxml.XMed
+
+def countOther (ks : List XKind) : Nat := (ks.filter (· == XKind.other)).length
+
+/-- Invariant of the mediator's clean-up, after at least one record: the parent holds the leading
+children received before the first record (never cleaned), `other` children (never cleaned), the
+last transcoded record, and what was received since (`tail`). -/
+structure MInv (s : MState) (lead : List XKind) (seen : List XKind) : Prop where
+  shape : ∃ O T, s.children = lead ++ O ++ [XKind.record] ++ T ∧ s.last = some (lead.length + O.length) ∧
+    (∀ x ∈ O, x = XKind.other) ∧ (∀ x ∈ T, x ≠ XKind.record) ∧
+    O.length + countOther T ≤ countOther seen ∧
+    T.length = s.notesSince + countOther T
+  log : ∀ p ∈ s.log, p.1 ≤ lead.length + 1 + countOther seen + p.2
+
+theorem countOther_append (a b : List XKind) : countOther (a ++ b) = countOther a + countOther b := by
+  simp [countOther, List.filter_append]
+
+theorem filter_ne_note_of_no_record (T : List XKind) (h : ∀ x ∈ T, x ≠ XKind.record) :
+    (T.filter (· != XKind.note)).length = countOther T ∧ ∀ x ∈ T.filter (· != XKind.note), x = XKind.other := by
+  induction T with
+  | nil => simp [countOther]
+  | cons x xs ih =>
+    have ih' := ih (fun y hy => h y (List.mem_cons_of_mem _ hy))
+    have hx := h x (by simp)
+    cases x with
+    | record => exact absurd rfl hx
+    | note =>
+      have : (XKind.note != XKind.note) = false := by decide
+      have h2 : (XKind.note == XKind.other) = false := by decide
+      simp only [List.filter_cons, this, Bool.false_eq_true, if_false, countOther, h2]
+      exact ih'
+    | other =>
+      have : (XKind.other != XKind.note) = true := by decide
+      have h2 : (XKind.other == XKind.other) = true := by decide
+      simp only [List.filter_cons, this, if_true, countOther, h2, List.length_cons]
+      refine ⟨by have := ih'.1; simp only [countOther] at this; omega, ?_⟩
+      intro y hy
+      rcases List.mem_cons.mp hy with rfl | hy
+      · rfl
+      · exact ih'.2 y hy
+
+/-- One step preserves the invariant. -/
+theorem mstep_inv (s : MState) (lead seen : List XKind) (k : XKind) (h : MInv s lead seen) :
+    MInv (mstep s k) lead (seen ++ [k]) := by
+  obtain ⟨⟨O, T, hch, hlast, hO, hT, hcnt, hlen⟩, hlog⟩ := h
+  have hseen : countOther (seen ++ [k]) = countOther seen + countOther [k] := countOther_append _ _
+  cases k with
+  | note =>
+    have hk : countOther [XKind.note] = 0 := by decide
+    refine ⟨⟨O, T ++ [XKind.note], ?_, hlast, hO, ?_, ?_, ?_⟩, ?_⟩
+    · simp only [mstep, hch, List.append_assoc]
+    · intro x hx
+      rcases List.mem_append.mp hx with h1 | h1
+      · exact hT x h1
+      · simp at h1; subst h1; decide
+    · rw [countOther_append, hk, hseen, hk]; omega
+    · simp only [mstep, List.length_append, List.length_singleton, countOther_append, hk]; omega
+    · intro p hp; have := hlog p hp; rw [hseen, hk]; omega
+  | other =>
+    have hk : countOther [XKind.other] = 1 := by decide
+    refine ⟨⟨O, T ++ [XKind.other], ?_, hlast, hO, ?_, ?_, ?_⟩, ?_⟩
+    · simp only [mstep, hch, List.append_assoc]
+    · intro x hx
+      rcases List.mem_append.mp hx with h1 | h1
+      · exact hT x h1
+      · simp at h1; subst h1; decide
+    · rw [countOther_append, hk, hseen, hk]; omega
+    · simp only [mstep, List.length_append, List.length_singleton, countOther_append, hk]; omega
+    · intro p hp; have := hlog p hp; rw [hseen, hk]; omega
+  | record =>
+    have hk : countOther [XKind.record] = 0 := by decide
+    have fl := filter_ne_note_of_no_record T hT
+    -- the tree before the clean-up, and the pieces the clean-up looks at
+    have hidx : s.children.length = lead.length + O.length + 1 + T.length := by
+      rw [hch]; simp only [List.length_append, List.length_singleton]
+    have hch' : s.children ++ [XKind.record] = (lead ++ O) ++ XKind.record :: (T ++ [XKind.record]) := by
+      rw [hch]; simp only [List.append_assoc, List.cons_append, List.nil_append, List.singleton_append]
+    have herase : (s.children ++ [XKind.record]).eraseIdx (lead.length + O.length) = (lead ++ O) ++ (T ++ [XKind.record]) := by
+      rw [hch']
+      have : lead.length + O.length = (lead ++ O).length := by simp
+      rw [this, List.eraseIdx_append_of_length_le (Nat.le_refl _)]
+      simp
+    refine ⟨⟨O ++ T.filter (· != XKind.note), [], ?_, ?_, ?_, ?_, ?_, ?_⟩, ?_⟩
+    · simp only [mstep, hlast, herase]
+      have t1 : ((lead ++ O) ++ (T ++ [XKind.record])).take (lead.length + O.length) = lead ++ O := by
+        have : lead.length + O.length = (lead ++ O).length := by simp
+        rw [this, List.take_left]
+      have d1 : ((lead ++ O) ++ (T ++ [XKind.record])).drop (lead.length + O.length) = T ++ [XKind.record] := by
+        have : lead.length + O.length = (lead ++ O).length := by simp
+        rw [this, List.drop_left]
+      have hm : s.children.length - 1 - (lead.length + O.length) = T.length := by omega
+      have t2 : (T ++ [XKind.record]).take T.length = T := List.take_left
+      have d2 : ((lead ++ O) ++ (T ++ [XKind.record])).drop (s.children.length - 1) = [XKind.record] := by
+        have : s.children.length - 1 = (lead ++ O ++ T).length := by simp; omega
+        rw [this, ← List.append_assoc, List.drop_left]
+      rw [t1, d1, hm, t2, d2]
+      simp only [List.append_assoc, List.append_nil]
+    · simp only [mstep, hlast, herase]
+      have t1 : ((lead ++ O) ++ (T ++ [XKind.record])).take (lead.length + O.length) = lead ++ O := by
+        have : lead.length + O.length = (lead ++ O).length := by simp
+        rw [this, List.take_left]
+      have d1 : ((lead ++ O) ++ (T ++ [XKind.record])).drop (lead.length + O.length) = T ++ [XKind.record] := by
+        have : lead.length + O.length = (lead ++ O).length := by simp
+        rw [this, List.drop_left]
+      have hm : s.children.length - 1 - (lead.length + O.length) = T.length := by omega
+      have t2 : (T ++ [XKind.record]).take T.length = T := List.take_left
+      rw [t1, d1, hm, t2]
+      simp only [List.length_append]; congr 1; omega
+    · intro x hx
+      rcases List.mem_append.mp hx with h1 | h1
+      · exact hO x h1
+      · exact fl.2 x h1
+    · intro x hx; cases hx
+    · have e0 : countOther ([] : List XKind) = 0 := rfl
+      rw [hseen, hk, List.length_append, fl.1, e0]; omega
+    · simp [mstep, hlast, countOther]
+    · intro p hp
+      simp only [mstep, hlast] at hp
+      rcases List.mem_append.mp hp with h1 | h1
+      · have := hlog p h1; rw [hseen, hk]; omega
+      · simp at h1; subst h1
+        simp only
+        rw [hseen, hk, hidx]
+        have := fl.1
+        omega
+
+/-- **Bounded retention in the XML transcoder mediator.** Let `lead` be the children received
+before the first record of a parent element (`cross` tells whether an element of another parent was
+transcoded before). Whatever follows, when a record is delivered its parent holds at most
+`lead.length + 1 + (number of children without any transcoder) + (discardable children received
+since the previous record)` earlier children: nothing that grows with the number of records. -/
+theorem xmed_retention_bounded (cross : Bool) (lead rest : List XKind) (hl : ∀ x ∈ lead, x ≠ XKind.record) :
+    ∀ p ∈ (mrun { cross := cross } (lead ++ XKind.record :: rest)).log,
+      p.1 ≤ lead.length + 1 + countOther (lead ++ XKind.record :: rest) + p.2 := by
+  -- before the first record nothing is cleaned and nothing is logged
+  have pre : ∀ (l done : List XKind), (∀ x ∈ l, x ≠ XKind.record) →
+      mrun { children := done, notesSince := (done.filter (· == XKind.note)).length, cross := cross } l =
+        { children := done ++ l, notesSince := ((done ++ l).filter (· == XKind.note)).length, cross := cross } := by
+    intro l
+    induction l with
+    | nil => intro done _; simp [mrun]
+    | cons x xs ih =>
+      intro done h
+      have hx := h x (by simp)
+      have := ih (done ++ [x]) (fun y hy => h y (List.mem_cons_of_mem _ hy))
+      simp only [mrun, List.foldl_cons] at this ⊢
+      cases x with
+      | record => exact absurd rfl hx
+      | note =>
+        have e : (XKind.note == XKind.note) = true := by decide
+        simp only [mstep]
+        simp only [List.filter_append, List.filter_cons, List.filter_nil, e, if_true, List.length_append,
+          List.length_singleton, List.append_assoc, List.singleton_append] at this ⊢
+        exact this
+      | other =>
+        have e : (XKind.other == XKind.note) = false := by decide
+        simp only [mstep]
+        simp only [List.filter_append, List.filter_cons, List.filter_nil, e, Bool.false_eq_true, if_false,
+          List.length_append, List.length_nil, Nat.add_zero, List.append_assoc, List.singleton_append] at this ⊢
+        exact this
+  have h0 := pre lead [] hl
+  simp only [List.filter_nil, List.length_nil, List.nil_append] at h0
+  -- the children that precede the first record and survive its clean-up
+  let lead' := if cross then lead.filter (· != XKind.note) else lead
+  have hlen' : lead'.length ≤ lead.length := by
+    show (if cross then lead.filter (· != XKind.note) else lead).length ≤ lead.length
+    cases cross
+    · simp
+    · simp only [if_true]; exact List.length_filter_le _ _
+  have hfirst : MInv (mstep (mrun { cross := cross } lead) XKind.record) lead' (lead ++ [XKind.record]) ∧
+      ∀ p ∈ (mstep (mrun { cross := cross } lead) XKind.record).log, p.1 ≤ lead.length := by
+    have e0 : (mrun { cross := cross } lead) =
+        { children := lead, notesSince := (lead.filter (· == XKind.note)).length, cross := cross } := h0
+    rw [e0]
+    cases cross with
+    | false =>
+      refine ⟨⟨⟨[], [], ?_, ?_, ?_, ?_, ?_, ?_⟩, ?_⟩, ?_⟩
+      · simp [mstep, lead']
+      · simp [mstep, lead']
+      · intro x hx; cases hx
+      · intro x hx; cases hx
+      · simp [countOther]
+      · simp [mstep, countOther]
+      · intro p hp
+        simp only [mstep, Bool.false_eq_true, if_false, List.nil_append, List.mem_singleton] at hp
+        subst hp
+        simp only [lead', Bool.false_eq_true, if_false]
+        omega
+      · intro p hp
+        simp only [mstep, Bool.false_eq_true, if_false, List.nil_append, List.mem_singleton] at hp
+        subst hp; simp
+    | true =>
+      refine ⟨⟨⟨[], [], ?_, ?_, ?_, ?_, ?_, ?_⟩, ?_⟩, ?_⟩
+      · simp [mstep, lead']
+      · simp [mstep, lead']
+      · intro x hx; cases hx
+      · intro x hx; cases hx
+      · simp [countOther]
+      · simp [mstep, countOther]
+      · intro p hp
+        simp only [mstep, if_true, List.nil_append, List.mem_singleton] at hp
+        subst hp
+        simp only
+        -- the logged index is lead.length, which the filtered lead may undercut; bound via `lead`
+        have : lead.length ≤ lead'.length + 1 + countOther (lead ++ [XKind.record]) +
+            (lead.filter (· == XKind.note)).length := by
+          -- every element of lead is a note or survives the filter
+          have split : lead.length = (lead.filter (· != XKind.note)).length + (lead.filter (· == XKind.note)).length := by
+            clear pre h0 e0 hlen'
+            induction lead with
+            | nil => rfl
+            | cons x xs ih =>
+              have := ih (fun y hy => hl y (List.mem_cons_of_mem _ hy))
+              cases x <;> simp [List.filter_cons] <;> omega
+          show lead.length ≤ (if true = true then lead.filter (· != XKind.note) else lead).length + 1 + _ + _
+          simp only [if_true]
+          omega
+        exact this
+      · intro p hp
+        simp only [mstep, if_true, List.nil_append, List.mem_singleton] at hp
+        subst hp; simp
+  have hrest : ∀ (r : List XKind) (s : MState) (seen : List XKind), MInv s lead' seen →
+      MInv (mrun s r) lead' (seen ++ r) := by
+    intro r
+    induction r with
+    | nil => intro s seen h; simpa [mrun] using h
+    | cons k ks ih =>
+      intro s seen h
+      have := ih (mstep s k) (seen ++ [k]) (mstep_inv s lead' seen k h)
+      simpa [mrun, List.append_assoc] using this
+  have hfinal := hrest rest _ _ hfirst.1
+  have e : mrun { cross := cross } (lead ++ XKind.record :: rest) =
+      mrun (mstep (mrun { cross := cross } lead) XKind.record) rest := by
+    simp [mrun, List.foldl_append]
+  rw [e]
+  intro p hp
+  have := hfinal.log p hp
+  have e2 : lead ++ [XKind.record] ++ rest = lead ++ XKind.record :: rest := by simp
+  rw [e2] at this
+  omega
+
+example : (mrun {} [.record, .note, .other, .record, .note, .other, .record]).log = [(0, 0), (3, 1), (4, 1)] := by
+  decide
+
+end EdxmlProps.C19
